@@ -13,6 +13,10 @@ namespace FastTicc.Repop
 
 def AllBelow (K : Nat) (labels : List Nat) : Prop := ∀ l ∈ labels, l < K
 
+-- Several statements carry hypotheses (`hK`, `hn`) that their proofs turn out not to need;
+-- they are kept exactly as stated.
+set_option linter.unusedVariables false
+
 /-- total number of refills the eligible donors can serve: `Σ (⌊size/m⌋ - 1)`. -/
 def capacity {α : Type} [LT α] [DecidableLT α] (spread : Nat → α) (K m : Nat) (labels : List Nat) : Nat :=
   ((rankedDonors spread K m labels).map (fun d => size labels d / m - 1)).sum
@@ -24,35 +28,54 @@ variable (K m : Nat) (spread : Nat → α) (pick : Nat → Nat → List Nat) (or
 /-- no cluster under 2 points ⇒ the very same labelling comes back. -/
 theorem repop_noop (h : needy K labels = []) :
     repopulate K m spread pick order labels = some labels := by
-  sorry
+  simp [repopulate, h]
 
 /-- error ⇔ more needy clusters than the donors' total capacity. -/
 theorem repop_error_iff (hm : 1 ≤ m) (hK : AllBelow K labels) (hp : ValidPick m pick)
     (ho : order.Perm (needy K labels)) :
     repopulate K m spread pick order labels = none ↔
       capacity spread K m labels < (needy K labels).length := by
-  sorry
+  rw [repopulate_eq spread m pick ho,
+    refill_none_iff hm hp order _ _ _ (inv_init spread hm ho), length_donorSeq, ho.length_eq]
+  exact Iff.rfl
 
 /-- in particular: when no cluster holds at least `2m` points and some cluster is needy, it raises. -/
 theorem repop_error_of_no_donor (hm : 1 ≤ m) (hK : AllBelow K labels) (hp : ValidPick m pick)
     (ho : order.Perm (needy K labels)) (hn : needy K labels ≠ [])
     (hd : ∀ k, k < K → size labels k < 2 * m) :
     repopulate K m spread pick order labels = none := by
-  sorry
+  rw [repop_error_iff K m spread pick order labels hm hK hp ho]
+  have hnil : rankedDonors spread K m labels = [] := by
+    refine List.eq_nil_iff_forall_not_mem.mpr (fun d hmem => ?_)
+    have h1 := (mem_rankedDonors spread K m labels d).mp hmem
+    have h2 := hd d h1.1
+    omega
+  simp only [capacity, hnil, List.map_nil, List.sum_nil]
+  exact List.length_pos_iff.mpr hn
 
 /-- every point still has exactly one label in `[0,K)`. -/
 theorem repop_conserves (hm : 1 ≤ m) (hK : AllBelow K labels) (hp : ValidPick m pick)
     (ho : order.Perm (needy K labels))
     (h : repopulate K m spread pick order labels = some labels') :
     labels'.length = labels.length ∧ AllBelow K labels' := by
-  sorry
+  have S := repopulate_spec spread hm hp ho h
+  refine ⟨S.len, ?_⟩
+  intro l hl
+  obtain ⟨i, hi⟩ := List.mem_iff_getElem?.mp hl
+  by_cases heq : labels'[i]? = labels[i]?
+  · exact hK l (List.mem_iff_getElem?.mpr ⟨i, heq ▸ hi⟩)
+  · obtain ⟨a, b, _, hb, _, hbo, _⟩ := S.moved i heq
+    rw [hi] at hb
+    cases hb
+    exact ((mem_needy K labels l).mp (ho.mem_iff.mp hbo)).1
 
 /-- every cluster that had fewer than 2 points gains exactly `m` (so has at least `m`). -/
 theorem repop_recipients (hm : 1 ≤ m) (hK : AllBelow K labels) (hp : ValidPick m pick)
     (ho : order.Perm (needy K labels))
     (h : repopulate K m spread pick order labels = some labels') :
     ∀ e ∈ needy K labels, size labels' e = size labels e + m := by
-  sorry
+  have S := repopulate_spec spread hm hp ho h
+  exact fun e he => S.recip e (ho.mem_iff.mpr he)
 
 /-- every cluster that gave points away had at least `2m` before, keeps at least `m`,
 and gave a multiple of `m`. -/
@@ -61,7 +84,16 @@ theorem repop_donors (hm : 1 ≤ m) (hK : AllBelow K labels) (hp : ValidPick m p
     (h : repopulate K m spread pick order labels = some labels') :
     ∀ d, size labels' d < size labels d →
       2 * m ≤ size labels d ∧ m ≤ size labels' d ∧ ∃ t, size labels d = size labels' d + t * m := by
-  sorry
+  have S := repopulate_spec spread hm hp ho h
+  intro d hlt
+  by_cases hdo : d ∈ order
+  · have := S.recip d hdo
+    omega
+  · by_cases hdr : d ∈ rankedDonors spread K m labels
+    · obtain ⟨h1, t, ht⟩ := S.donor d hdr
+      exact ⟨((mem_rankedDonors spread K m labels d).mp hdr).2, h1, t, ht⟩
+    · have := S.other d hdo hdr
+      omega
 
 /-- points move only from a donor (≥ 2m) into a previously under-populated cluster. -/
 theorem repop_moves_only_donor_to_needy (hm : 1 ≤ m) (hK : AllBelow K labels)
@@ -70,7 +102,10 @@ theorem repop_moves_only_donor_to_needy (hm : 1 ≤ m) (hK : AllBelow K labels)
     ∀ i : Nat, labels'[i]? ≠ labels[i]? →
       ∃ a b, labels[i]? = some a ∧ labels'[i]? = some b ∧
         2 * m ≤ size labels a ∧ b ∈ needy K labels := by
-  sorry
+  have S := repopulate_spec spread hm hp ho h
+  intro i hi
+  obtain ⟨a, b, ha, hb, har, hbo, _⟩ := S.moved i hi
+  exact ⟨a, b, ha, hb, ((mem_rankedDonors spread K m labels a).mp har).2, ho.mem_iff.mp hbo⟩
 
 /-- all other clusters are untouched: a cluster that is not needy and did not shrink has
 exactly its old member list. -/
@@ -79,7 +114,20 @@ theorem repop_bystanders_untouched (hm : 1 ≤ m) (hK : AllBelow K labels)
     (h : repopulate K m spread pick order labels = some labels') :
     ∀ k, k ∉ needy K labels → size labels k ≤ size labels' k →
       members labels' k = members labels k := by
-  sorry
+  have S := repopulate_spec spread hm hp ho h
+  intro k hk hle
+  unfold members
+  rw [S.len]
+  apply List.filter_congr
+  intro i _
+  by_cases heq : labels'[i]? = labels[i]?
+  · rw [heq]
+  · obtain ⟨a, b, ha, hb, _, hbo, hlt⟩ := S.moved i heq
+    have hak : a ≠ k := fun h => by subst h; omega
+    have hbk : b ≠ k := fun h => hk (h ▸ ho.mem_iff.mp hbo)
+    have h1 : (some b == some k) = false := by simpa using hbk
+    have h2 : (some a == some k) = false := by simpa using hak
+    rw [ha, hb, h1, h2]
 
 /-- the `pop()` branch of `_find_point_donor` is dead when every candidate has ≥ 2m points … -/
 theorem findDonor_dead_branch (sz : Nat → Nat) (rem : List Nat) (h : ∀ d ∈ rem, 2 * m ≤ sz d) :
@@ -87,7 +135,9 @@ theorem findDonor_dead_branch (sz : Nat → Nat) (rem : List Nat) (h : ∀ d ∈
       match rem with
       | [] => none
       | d :: rest => if sz d < 3 * m then some (d, rest) else some (d, d :: rest) := by
-  sorry
+  cases rem with
+  | nil => exact findDonor_nil sz m
+  | cons d rest => exact findDonor_cons_of_le sz m d rest (h d List.mem_cons_self)
 
 /-- … and that is an invariant of the recipient loop: whenever a donor is looked for, every
 remaining candidate still has at least `2m` points (so the dead branch is never reached
@@ -95,7 +145,13 @@ from `repopulate_empty_clusters`).  Stated on the list of donors actually used. 
 theorem repop_used_donors_eligible (hm : 1 ≤ m) (hK : AllBelow K labels) (hp : ValidPick m pick)
     (ho : order.Perm (needy K labels)) :
     ∀ d ∈ donorsUsed K m spread pick order labels, d ∈ rankedDonors spread K m labels := by
-  sorry
+  intro d hd
+  rw [donorsUsed_eq spread m pick ho,
+    refillDonors_eq hm hp order _ _ _ (inv_init spread hm ho)] at hd
+  have hd' := List.mem_of_mem_take hd
+  simp only [donorSeq, List.mem_flatMap, List.mem_replicate] at hd'
+  obtain ⟨a, ha, _, rfl⟩ := hd'
+  exact ha
 
 /-- donors are taken in ranking order, each repeated to capacity, exactly `m` points per refill. -/
 theorem repop_donor_order (hm : 1 ≤ m) (hK : AllBelow K labels) (hp : ValidPick m pick)
@@ -103,14 +159,33 @@ theorem repop_donor_order (hm : 1 ≤ m) (hK : AllBelow K labels) (hp : ValidPic
     donorsUsed K m spread pick order labels =
       (((rankedDonors spread K m labels).flatMap
           (fun d => List.replicate (size labels d / m - 1) d)).take order.length) := by
-  sorry
+  rw [donorsUsed_eq spread m pick ho,
+    refillDonors_eq hm hp order _ _ _ (inv_init spread hm ho)]
+  rfl
 
 /-- for `m ≥ 2` the result needs no further repopulation (consecutive iterations). -/
 theorem repop_idempotent (hm : 2 ≤ m) (hK : AllBelow K labels) (hp : ValidPick m pick)
     (ho : order.Perm (needy K labels))
     (h : repopulate K m spread pick order labels = some labels') :
     needy K labels' = [] := by
-  sorry
+  have hm1 : 1 ≤ m := by omega
+  have S := repopulate_spec spread hm1 hp ho h
+  unfold needy
+  rw [List.filter_eq_nil_iff]
+  intro k hkK
+  rw [List.mem_range] at hkK
+  rw [decide_eq_true_iff]
+  show ¬ size labels' k < 2
+  by_cases hn : k ∈ needy K labels
+  · have := S.recip k (ho.mem_iff.mpr hn)
+    omega
+  · have hko : k ∉ order := fun h => hn (ho.mem_iff.mp h)
+    have h2 : ¬ size labels k < 2 := fun h => hn ((mem_needy K labels k).mpr ⟨hkK, h⟩)
+    by_cases hdr : k ∈ rankedDonors spread K m labels
+    · have := (S.donor k hdr).1
+      omega
+    · have := S.other k hko hdr
+      omega
 end
 
 section ranking
@@ -123,7 +198,8 @@ theorem rankedDonors_spec (spread : Nat → α) (K m : Nat) (labels : List Nat) 
     (rankedDonors spread K m labels).Nodup ∧
     (rankedDonors spread K m labels).Pairwise
       (fun a b => spread b < spread a ∨ (spread a = spread b ∧ a < b)) := by
-  sorry
+  exact ⟨mem_rankedDonors spread K m labels, rankedDonors_nodup spread K m labels,
+    rankedDonors_sorted spread K m labels⟩
 end ranking
 
 /-- non-vacuity: a concrete case with two needy clusters served by two donors in spread order. -/
@@ -133,6 +209,24 @@ example :
     let pick : Nat → Nat → List Nat := fun _ _ => [0, 1]
     needy 5 labels = [2, 3] ∧ rankedDonors spread 5 2 labels = [1, 0] ∧
     repopulate 5 2 spread pick [2, 3] labels = some [3,3,0,0,0,0,0, 2,2,1,1, 2, 4,4] := by
-  sorry
+  intro labels spread pick
+  have h1 : needy 5 labels = [2, 3] := by decide
+  have h2 : rankedDonors spread 5 2 labels = [1, 0] := by decide
+  refine ⟨h1, h2, ?_⟩
+  unfold repopulate
+  rw [if_neg (by rw [h1]; decide), h2]
+  -- first refill: donor 1 (size 4 < 3·2, retired afterwards) gives points 7, 8 to cluster 2
+  have f1 : findDonor (size labels) 2 [1, 0] = some (1, [0]) := by
+    rw [findDonor_cons_of_le _ _ _ _ (by decide)]; decide
+  rw [refill, f1]
+  have e1 : movePoints labels 1 2 (pick 0 (size labels 1)) =
+      [0,0,0,0,0,0,0, 2,2,1,1, 2, 4,4] := by decide
+  simp only [e1]
+  -- second refill: donor 0 (size 7 ≥ 3·2, kept) gives points 0, 1 to cluster 3
+  have f2 : findDonor (size [0,0,0,0,0,0,0, 2,2,1,1, 2, 4,4]) 2 [0] = some (0, [0]) := by
+    rw [findDonor_cons_of_le _ _ _ _ (by decide)]; decide
+  rw [refill, f2]
+  simp only [refill]
+  decide
 
 end FastTicc.Repop
